@@ -115,6 +115,10 @@ struct ParamsS {
     owner_panics: bool,
     cancel_after: Option<u32>,
     nested: bool,
+    /// the owner is cancelled a second time, this many controller steps after the first cancel:
+    /// with the cancel disabled (that is how a scope waits) every further cancel is a spurious
+    /// wake-up of the waiting owner
+    second_cancel: Option<u32>,
 }
 
 fn gen_s(seed: u64) -> ParamsS {
@@ -125,7 +129,12 @@ fn gen_s(seed: u64) -> ParamsS {
     let children = gen_children(&mut r, n, true);
     let owner_panics = r.chance(1, 6);
     let cancel_after = if owner == Ctx::Co && !owner_panics && r.chance(1, 2) { Some(r.below(80) as u32) } else { None };
-    ParamsS { rt, owner, explicit: r.below(n as u64 + 1) as usize, children, owner_panics, cancel_after, nested: r.chance(1, 4) }
+    let mut p = ParamsS { rt, owner, explicit: r.below(n as u64 + 1) as usize, children, owner_panics, cancel_after, nested: r.chance(1, 4), second_cancel: None };
+    // drawn last: everything above is the same as before this field existed
+    if p.cancel_after.is_some() && r.chance(1, 2) {
+        p.second_cancel = Some(r.below(60) as u32);
+    }
+    p
 }
 
 pub fn run_scope(seed: u64, mut ov: impl FnMut(&mut engine::Cfg)) -> ! {
@@ -213,7 +222,11 @@ pub fn run_scope(seed: u64, mut ov: impl FnMut(&mut engine::Cfg)) -> ! {
     let cancel_flag = Arc::new(AtomicBool::new(false));
     if let Some(k) = p.cancel_after {
         let co = actors[0].co.as_ref().unwrap().coroutine().clone();
-        actors.push(rt::spawn_canceller(vec![(k, co, cancel_flag.clone())]));
+        let mut list = vec![(k, co.clone(), cancel_flag.clone())];
+        if let Some(gap) = p.second_cancel {
+            list.push((k + 1 + gap, co, Arc::new(AtomicBool::new(false))));
+        }
+        actors.push(rt::spawn_canceller(list));
     }
     let deadline = engine::now() + 100_000_000;
     engine::set_vt_limit(deadline + 1_000_000);
